@@ -18,7 +18,7 @@
 (*                     the same subspace (row operation, row scaling)       *)
 (* so W is the intersection transported along the behaviour.  Independently *)
 (* Meet(A, B) computes the intersection from the two spanning sets alone,   *)
-(* by fraction-free elimination (FormOps!KernelBasis on the stacked         *)
+(* by fraction-free elimination (the kernel of the stacked         *)
 (* spanning sets, exactly the construction of Subspace.intersect).  TLC     *)
 (* checks in every state and for every pair: the dimension formula          *)
 (* dim = P + Q - M, containment in both subspaces, independence,            *)
@@ -36,11 +36,11 @@ VARIABLES As, Bs, W, len, last
 KDim == P + Q - M
 ASSUME P <= M /\ Q <= M /\ KDim >= 1 /\ Q < M
 
-E(k) == [c \in 1..M |-> IF c = k THEN 1 ELSE 0]
+E(k) == TLCEval([c \in 1..M |-> IF c = k THEN 1 ELSE 0])
 RECURSIVE SortedSeq(_)
 SortedSeq(S) == IF S = {} THEN <<>>
                 ELSE LET m == CHOOSE a \in S : \A b \in S : a <= b IN <<m>> \o SortedSeq(S \ {m})
-Coord(S) == LET s == SortedSeq(S) IN [r \in 1..Len(s) |-> E(s[r])]
+Coord(S) == LET s == SortedSeq(S) IN TLCEval([r \in 1..Len(s) |-> E(s[r])])
 KSub(S, k) == {T \in SUBSET S : Cardinality(T) = k}
 RECURSIVE TakeN(_, _)
 TakeN(SS, n) == IF n = 0 \/ SS = {} THEN <<>>
@@ -54,20 +54,57 @@ NA == Len(ASets)
 NB == Len(BSets)
 
 (***************************************************************************)
+(* Fraction-free Gauss-Jordan elimination (Bareiss), the algorithm of       *)
+(* FormOps!GJ with every intermediate matrix forced into tuples (TLC keeps  *)
+(* [i \in S |-> e] lazy, which is exponential along a chain of pivots).     *)
+(***************************************************************************)
+RECURSIVE GJD(_, _, _, _, _, _)
+GJD(A, r, c, prev, pc, ok) ==
+  LET m == Len(A)
+      nc == Len(A[1])
+  IN IF r = m \/ c > nc
+     THEN [A |-> A, rank |-> r, piv |-> prev, pc |-> pc, ok |-> ok]
+     ELSE IF \A i \in (r + 1)..m : A[i][c] = 0
+          THEN GJD(A, r, c + 1, prev, pc, ok)
+          ELSE LET i0 == CHOOSE i \in (r + 1)..m : A[i][c] # 0 /\ \A k \in (r + 1)..(i - 1) : A[k][c] = 0
+                   B == TLCEval(SwapRows(A, r + 1, i0))
+                   p == B[r + 1][c]
+                   small == \A i \in 1..m : \A j \in 1..nc : Abs(B[i][j]) <= GBnd
+                   C == TLCEval([i \in 1..m |-> IF i = r + 1 THEN B[i]
+                                   ELSE TLCEval([j \in 1..nc |-> (p * B[i][j] - B[i][c] * B[r + 1][j]) \div prev])])
+                   exact == \A i \in 1..m : i # r + 1 =>
+                               \A j \in 1..nc : (p * B[i][j] - B[i][c] * B[r + 1][j]) % Abs(prev) = 0
+               IN IF ~small THEN [A |-> A, rank |-> r, piv |-> prev, pc |-> pc, ok |-> FALSE]
+                  ELSE GJD(C, r + 1, c + 1, p, Append(pc, c), ok /\ exact)
+ElimD(A) == GJD(A, 0, 1, 1, <<>>, TRUE)
+RankD(A) == ElimD(A).rank
+\* integer basis of {x : A x = 0}: one vector per free column
+KernelD(A) ==
+  LET e == ElimD(A)
+      nc == Len(A[1])
+      pcs == {e.pc[i] : i \in 1..e.rank}
+      free == {f \in 1..nc : f \notin pcs}
+      rowOf(c) == CHOOSE i \in 1..e.rank : e.pc[i] = c
+  IN {TLCEval([c \in 1..nc |-> IF c = f THEN e.piv
+                                ELSE IF c \in pcs THEN 0 - e.A[rowOf(c)][f] ELSE 0]) : f \in free}
+
+(***************************************************************************)
 (* Exact intersection by elimination                                       *)
 (***************************************************************************)
 \* all c with  sum_r c[r] * S[r] = 0  for the stacked spanning sets S = A \o B;
 \* the first P coefficients of c give a vector of A that also lies in B
+TDeep(A) == TLCEval([j \in 1..Len(A[1]) |-> TLCEval([i \in 1..Len(A) |-> A[i][j]])])
 Meet(A, B) ==
   LET S == A \o B
-      ker == SetSeq(KernelBasis(TLCEval(Transpose(S))))
-  IN TLCEval([n \in 1..Len(ker) |-> Prim(VecMat(SubSeq(ker[n], 1, Len(A)), A))])
-MeetOk(A, B) == ElimOk(TLCEval(Transpose(A \o B)))
+      ker == SetSeq(KernelD(TDeep(S)))
+  IN TLCEval([n \in 1..Len(ker) |-> TLCEval(Prim(VecMat(SubSeq(ker[n], 1, Len(A)), A)))])
+MeetOk(A, B) == ElimD(TDeep(A \o B)).ok
 
 (***************************************************************************)
 (* The machine                                                             *)
 (***************************************************************************)
-ShearVec(v, i, j, s) == [c \in 1..M |-> IF c = j THEN v[c] + s * v[i] ELSE v[c]]
+\* (TLCEval at every level: TLC keeps [i \in S |-> e] lazy and would re-evaluate chains of operations)
+ShearVec(v, i, j, s) == TLCEval([c \in 1..M |-> IF c = j THEN v[c] + s * v[i] ELSE v[c]])
 ShearMat(A, i, j, s) == TLCEval([r \in 1..Len(A) |-> ShearVec(A[r], i, j, s)])
 \* the initial frame: a fixed product of unimodular shears applied to the coordinate subspaces
 Frame0 == [n \in 1..(2 * M) |-> IF n <= M THEN <<n, (n % M) + 1, 1>>
@@ -80,8 +117,8 @@ Init == /\ As = [i \in 1..NA |-> Scramble(Coord(ASets[i]), 1)]
         /\ Bs = [j \in 1..NB |-> Scramble(Coord(BSets[j]), 1)]
         /\ W = [i \in 1..NA |-> [j \in 1..NB |-> Scramble(Coord(ASets[i] \cap BSets[j]), 1)]]
         /\ len = 0 /\ last = [a |-> "init"]
-RowOp(A, r1, r2, s) == TLCEval([r \in 1..Len(A) |-> IF r = r1 THEN VAdd(A[r], VScale(s, A[r2])) ELSE A[r]])
-RowScale(A, r1, s) == TLCEval([r \in 1..Len(A) |-> IF r = r1 THEN VScale(s, A[r]) ELSE A[r]])
+RowOp(A, r1, r2, s) == TLCEval([r \in 1..Len(A) |-> IF r = r1 THEN TLCEval(VAdd(A[r], VScale(s, A[r2]))) ELSE A[r]])
+RowScale(A, r1, s) == TLCEval([r \in 1..Len(A) |-> IF r = r1 THEN TLCEval(VScale(s, A[r])) ELSE A[r]])
 
 AmbientOps == {<<i, (i % M) + 1, 1>> : i \in 1..M} \cup {<<(i % M) + 1, i, 0 - 1>> : i \in 1..M}
 MixOps(n) == IF n >= 2 THEN {<<"op", 1, 2, 1>>, <<"op", n, 1, 0 - 1>>, <<"scale", 1, 0, 0 - 2>>}
@@ -110,15 +147,15 @@ Pairs == (1..NA) \X (1..NB)
 \* the table of eliminated intersections, computed once per state
 Table == TLCEval([i \in 1..NA |-> TLCEval([j \in 1..NB |-> Meet(As[i], Bs[j])])])
 ElimExact == \A ij \in Pairs : MeetOk(As[ij[1]], Bs[ij[2]])
-SpanningSets == /\ \A i \in 1..NA : RankOf(As[i]) = P
-                /\ \A j \in 1..NB : RankOf(Bs[j]) = Q
-Transverse == \A ij \in Pairs : RankOf(As[ij[1]] \o Bs[ij[2]]) = M
-DimFormula(T) == \A ij \in Pairs : Len(T[ij[1]][ij[2]]) = KDim /\ RankOf(T[ij[1]][ij[2]]) = KDim
+SpanningSets == /\ \A i \in 1..NA : RankD(As[i]) = P
+                /\ \A j \in 1..NB : RankD(Bs[j]) = Q
+Transverse == \A ij \in Pairs : RankD(As[ij[1]] \o Bs[ij[2]]) = M
+DimFormula(T) == \A ij \in Pairs : Len(T[ij[1]][ij[2]]) = KDim /\ RankD(T[ij[1]][ij[2]]) = KDim
 InBoth(T) == \A ij \in Pairs : \A n \in 1..KDim :
                LET w == T[ij[1]][ij[2]][n]
-               IN RankOf(Append(As[ij[1]], w)) = P /\ RankOf(Append(Bs[ij[2]], w)) = Q
-TrackedAgrees(T) == \A ij \in Pairs : /\ RankOf(W[ij[1]][ij[2]]) = KDim
-                                      /\ RankOf(W[ij[1]][ij[2]] \o T[ij[1]][ij[2]]) = KDim
+               IN RankD(Append(As[ij[1]], w)) = P /\ RankD(Append(Bs[ij[2]], w)) = Q
+TrackedAgrees(T) == \A ij \in Pairs : /\ RankD(W[ij[1]][ij[2]]) = KDim
+                                      /\ RankD(W[ij[1]][ij[2]] \o T[ij[1]][ij[2]]) = KDim
 Obs(T) == [m |-> M, p |-> P, q |-> Q, k |-> KDim, len |-> len, As |-> As, Bs |-> Bs, meet |-> T]
 \* the three laws of the intersection table; the record is printed only when they hold
 MeetLaws == LET T == Table
